@@ -46,7 +46,7 @@ def h_nop_step(c, pkg, depth):
     if depth > 20:
         c.assume(sym_or(code == vmstep.N_OPS, code == 255))      # deep stacks: the dispatch is covered by the shallow ones
     count = c.byte('count')
-    items = [c.bytes(f's{i}', 1 + (i % 2)) for i in range(depth)]
+    items = [c.bytes(f"s{i}", i % 3) for i in range(depth)]
     stack = C.Stack()
     for it in items:
         stack.put(it)
@@ -81,7 +81,7 @@ def c_nop_step(inputs, params):
     import tapescript
     stack = tapescript.Stack()
     for i in range(params['depth']):
-        stack.put(inputs[f's{i}'])
+        stack.put(inputs.get(f's{i}', b''))
     tape = tapescript.Tape(bytes([inputs['code'], inputs['count']]))
     r = outcome_of(tapescript.run_tape, tape, stack, {'sigfield1': b'a', b'k': [b'v']})
     if r[0] == 'raise':
@@ -92,7 +92,7 @@ def c_nop_step(inputs, params):
 def r_nop_step(inputs, params, obligation):
     import tapescript
     depth = params['depth']
-    items = [inputs[f's{i}'] for i in range(depth)]
+    items = [inputs.get(f's{i}', b'') for i in range(depth)]
     stack = tapescript.Stack()
     for it in items:
         stack.put(it)
@@ -235,7 +235,7 @@ def h_fork_step(c, pkg, depth):
     T.add_soft_fork(code, 'OP_FORKED', _fork_op(pkg, c, log), ['FRK'])
     c.check('forked_code_left_the_nop_table', code not in F.nopcodes and code in F.opcodes)
     count = c.byte('count')
-    items = [c.bytes(f's{i}', 1 + (i % 2)) for i in range(depth)]
+    items = [c.bytes(f"s{i}", i % 3) for i in range(depth)]
 
     def run(p):
         stack = p.classes.Stack()
